@@ -175,6 +175,29 @@ class Interp(StmtMixin, ExtMixin, OpsMixin, InterpCore):
             raise AnalysisError("chunk idiom mixed with other output in the same loop")
         return StmtMixin.wrap_rep(self, ctx, body, None)
 
+    def getattr(self, base, attr, node=None):
+        from .symeval_ext import SuperV
+        from .model import ClassInfo
+        if isinstance(base, SuperV):
+            inst = base.inst
+            start_cls = inst.ci if isinstance(inst, InstV) else inst.ci
+            mro = start_cls.mro()
+            if base.ci in mro:
+                mro = mro[mro.index(base.ci) + 1:]
+            for c in mro:
+                if isinstance(c, ClassInfo) and attr in c.methods:
+                    fi = c.methods[attr]
+                    if fi.is_property:
+                        return self.call_function(FuncV(fi, selfv=inst), [], {}, node)
+                    return FuncV(fi, selfv=inst)
+            if attr == "__init__":
+                return ExtV("builtins.object.__init__")
+            self.err(node, "super() has no attribute %s" % attr)
+        return OpsMixin.getattr(self, base, attr, node)
+
+    def x_object___init__(self, args, kwargs, node, env):
+        return NONE
+
     # convenience --------------------------------------------------------------
     def run(self, fi, args, kwargs=None, selfv=None):
         fv = FuncV(fi, selfv=selfv)
